@@ -319,14 +319,15 @@ PROPS['C20'] = {
     'units': ['contexts_a', 'contexts_b', 'contexts_c'],
     'functions': ['infix.rs::check_arithmetic_infix', 'parse_terms.rs::parse_term', 'parse_goals.rs::get_left_and_right', 's_linked_list.rs::parse_linked_list', 'parse_terms.rs::parse_arguments'],
     'oracles': {'*': 'c20_contexts', '#argument_not_infix': 'c20_known_infix', '#argument_as_alone': 'c20_known_flags'},
-    'bounded': [('c20_contexts', 'the property itself, BOUNDED: 203 term texts (atoms, variables, $_, integers, floats, signed numbers, quoted atoms, lists, complex terms, functions, infix arithmetic, punctuation atoms, escapes, inner white space, '
+    'bounded': [('c20_contexts', 'the property itself, BOUNDED: 207 term texts (atoms, variables, $_, integers, floats, signed numbers, quoted atoms, lists, complex terms, functions, infix arithmetic, punctuation atoms, escapes, inner white space, '
                                  'unbalanced brackets, a digit next to each punctuation character; eight of them also with white space around) written in nine contexts (only argument / second of three arguments of a complex term, argument of a built-in, of a query, only / second element '
                                  'of a list, right of `=`, left of `>=`, right of an arithmetic infix) wherever the text stays one term of the context: the term that comes out against parse_term(text). A deviation is passed over only if it is a '
                                  'known finding by context, shape of the text AND the two values (replay/src/o_contexts.rs known_deviation)'),
                 ('c20_known_flags', 'the known finding "flags": digits, periods, signs and blanks in an argument context (listed by shape; fails while the deviation is there)'),
                 ('c20_known_infix', 'the known finding "infix": a text with an arithmetic infix in an argument context'),
                 ('c20_known_escape', 'the known finding "escape": a backslash outside quotation marks in an argument context'),
-                ('c20_known_paren', 'the known finding "paren": a quoted or escaped parenthesis in an argument context')],
+                ('c20_known_paren', 'the known finding "paren": a quoted or escaped parenthesis in an argument context'),
+                ('c20_known_quotes', 'the known finding "quotes": quotation marks that do not enclose the whole text, in the argument AND the list-element contexts')],
     'not_covered': [
         'PROVED (Verus, verbatim bodies, overlay contracts contracts/*+c20.vc): parse_term computes the meaning of a text on its own as specified - trim, first arithmetic infix, else classify (some digit / some period / anything else) and make_term, '
         'with the two-character escape resolved (#meaning, #flags_inv; unit contexts_a); a list element is parse_term of its trimmed piece of the text between the brackets (parse_linked_list #elements_alone, #elements_inv), '
@@ -334,7 +335,7 @@ PROPS['C20'] = {
         'the scan of parse_arguments keeps the text and classifies it as parse_term does (#simple_scan_inv, #simple_argument_as_alone; the infix fact #infix_is_a_sign is proved on check_arithmetic_infix in unit contexts_c)',
         'KNOWN FINDINGS (the property does NOT hold for arguments of complex terms, built-ins and queries): parse_arguments classifies the characters itself, drops backslashes and never looks for an infix; the two obligations that say '
         'this comes to the meaning of the piece on its own (#argument_not_infix, #argument_as_alone, at both calls of make_term) are not provable and are refuted by the inputs of c20_known_*; a fourth deviation (a quoted or escaped '
-        'parenthesis makes the enclosing term fail) has no obligation in these units and is a finding of the bounded exploration only. Not repaired: one classification for all contexts changes the accepted language in four ways (DESIGN 8.33)',
+        'parenthesis makes the enclosing term fail) and a fifth (quotation marks that do not enclose the whole text: rejected as an argument and as a list element) have no obligation in these units and are findings of the bounded exploration only. Not repaired: one classification for all contexts changes the accepted language in four ways (DESIGN 8.33)',
         'ASSUMED (T10): parse_term, make_term, check_arithmetic_infix and get_left_and_right are functions of their arguments (clauses #function_of_arguments / #function_of_text where they are callees); '
         'NOT proved: that the argument contexts hand exactly the text between the parentheses to parse_arguments (parse_complex, parse_subgoal, parse_query: covered by the bounded exploration only), the tail variable of a list (read by make_logic_var), '
         'and that the two scanners of parse_arguments agree with parse_term beyond the known findings - because the two obligations fail on the current tree for the known reasons, a further disagreement introduced in parse_arguments is '
